@@ -716,14 +716,14 @@ def g_num(r, depth, in_pred):
             return T("num", "number()")
         return T("num", "number({0})", g_ns(r, depth - 1, in_pred) if r.chance(1, 2) else g_str(r, depth - 1, in_pred))
     if k == "neg":
-        return T("num", "-{0}", T("num", "({0})", g_num(r, depth - 1, in_pred)))
+        return T("num", "-{0}", T("num", "({0})", g_numlike(r, depth - 1, in_pred)))
     if k == "fn":
         f = r.choice(["floor", "ceiling", "round"])
         if f == "round":
             return T("num", "round({0} div 2)", g_int(r, 0, in_pred) if not in_pred else T("int", "position()"))
-        return T("num", f + "({0})", g_num(r, depth - 1, in_pred))
+        return T("num", f + "({0})", g_numlike(r, depth - 1, in_pred))
     op = r.choice(["+", "-", "*", "div", "mod"])
-    return T("num", "({0}) " + op + " ({1})", g_num(r, depth - 1, in_pred), g_num(r, depth - 1, in_pred))
+    return T("num", "({0}) " + op + " ({1})", g_numlike(r, depth - 1, in_pred), g_numlike(r, depth - 1, in_pred))
 
 
 def g_str(r, depth, in_pred):
@@ -747,7 +747,7 @@ def g_str(r, depth, in_pred):
         f = r.choice(["name", "local-name"])
         return T("str", f + "()") if r.chance(1, 3) else T("str", f + "({0})", g_ns(r, depth - 1, in_pred))
     f = r.choice(["concat", "substring2", "substring3", "normalize-space", "translate", "before", "after"])
-    s1 = g_str(r, depth - 1, in_pred)
+    s1 = g_strlike(r, depth - 1, in_pred)
     if f in ("before", "after"):
         return T("str", "substring-" + f + "({0}, {1})", s1, T("str", r.choice(["'a'", "' '", "''", "'2'", "'bc'", "'x y'", "'1'", "'ab'"])) if r.chance(2, 3) else g_str(r, 0, in_pred))
     if f == "concat":
@@ -757,6 +757,10 @@ def g_str(r, depth, in_pred):
         if w == 1:
             return T("str", "concat({0}, {1}, {2}, {3})", s1, g_str(r, 0, in_pred), g_str(r, 0, in_pred), T("str", "string({0})", g_int(r, 0, in_pred)))
         return T("str", "concat({0}, {1}, {2})", s1, g_str(r, depth - 1, in_pred), T("str", "string({0})", g_int(r, 0, in_pred)))
+    if f in ("substring2", "substring3") and r.chance(1, 3):
+        if f == "substring2":
+            return T("str", "substring({0}, {1})", s1, g_numlike(r, depth - 1, in_pred))
+        return T("str", "substring({0}, {1}, {2})", s1, g_numlike(r, depth - 1, in_pred), g_numlike(r, 0, in_pred))
     if f == "substring2":
         return T("str", "substring({0}, {1})", s1, T("num", r.choice(["0", "1", "2", "1.5", "-1", "10", "0 div 0", "2.5", "-1 div 0", "1 div 0", "0.5", "1.4999", "3.5"])))
     if f == "substring3":
@@ -780,12 +784,12 @@ def g_bool(r, depth, in_pred):
     if k == "exists":
         return T("bool", "boolean({0})", g_ns(r, depth - 1, in_pred))
     if k == "strfn":
-        return T("bool", r.choice(["contains", "starts-with"]) + "({0}, {1})", g_str(r, depth - 1, in_pred), g_str(r, 0, in_pred))
+        return T("bool", r.choice(["contains", "starts-with"]) + "({0}, {1})", g_strlike(r, depth - 1, in_pred), g_strlike(r, 0, in_pred))
     if k == "logic":
         w = r.below(3)
         if w == 0:
-            return T("bool", "not({0})", g_bool(r, depth - 1, in_pred))
-        return T("bool", "({0}) " + ("and" if w == 1 else "or") + " ({1})", g_bool(r, depth - 1, in_pred), g_bool(r, depth - 1, in_pred))
+            return T("bool", "not({0})", g_boollike(r, depth - 1, in_pred))
+        return T("bool", "({0}) " + ("and" if w == 1 else "or") + " ({1})", g_boollike(r, depth - 1, in_pred), g_boollike(r, depth - 1, in_pred))
     op = r.choice(["=", "!=", "<", "<=", ">", ">="])
 
     def any_val():
@@ -845,6 +849,97 @@ def g_nested_pred(r):
     if k == 8:
         return "(%s = %s) or %s" % (inner, g_inner_positional(r), outer)
     return "string-length(name(%s)) > 0 and %s" % (inner, outer)
+
+
+def g_numlike(r, depth, in_pred):
+    """an operand where a number is expected: a number, or a value of another type converted implicitly (XPath 3.5 / 4)"""
+    k = r.weighted([("num", 6), ("ns", 3), ("str", 1), ("bool", 1)])
+    d = max(depth, 0)
+    if k == "num":
+        return g_num(r, d, in_pred)
+    if k == "ns":
+        return T("num", "{0}", g_ns(r, d, in_pred))
+    if k == "str":
+        return T("num", "{0}", g_str(r, d, in_pred))
+    return T("num", "{0}", g_bool(r, d, in_pred))
+
+
+def g_strlike(r, depth, in_pred):
+    k = r.weighted([("str", 6), ("ns", 3), ("int", 1), ("bool", 1)])
+    d = max(depth, 0)
+    if k == "str":
+        return g_str(r, d, in_pred)
+    if k == "ns":
+        return T("str", "{0}", g_ns(r, d, in_pred))
+    if k == "int":
+        return T("str", "{0}", g_int(r, d, in_pred))
+    return T("str", "{0}", g_bool(r, d, in_pred))
+
+
+def g_boollike(r, depth, in_pred):
+    k = r.weighted([("bool", 6), ("ns", 2), ("str", 1), ("num", 1)])
+    d = max(depth, 0)
+    if k == "bool":
+        return g_bool(r, d, in_pred)
+    if k == "ns":
+        return T("bool", "{0}", g_ns(r, d, in_pred))
+    if k == "str":
+        return T("bool", "{0}", g_str(r, d, in_pred))
+    return T("bool", "{0}", g_num(r, d, in_pred))
+
+
+# ---------------------------------------------------------------------------------------------
+# recycling phase: XObjectFactoryDefault reuses released XNodeSet / XString / XNumber objects; conversions memoised in an
+# object must not survive into the next value that lands in it.  One session interleaves (re)bindings of variables to
+# empty-valued and non-empty values of every type with conversions of variables and of function arguments (which go through
+# the XObject, not through the typed evaluation paths of inline location paths).
+
+RECYCLE_SOURCES = {
+    "ns-empty": ["//zz", "//*[not(node())][false()]", "/..", "//*[. = ''][1]", "//*[not(node())]", "//comment()/zz", "//@zz"],
+    "ns": ["//*[1]", "//a", "//b", "//c", "//*[text()][1]", "//@*", "//text()", "//*[last()]", "//*[@*][1]", "(//text())[last()]",
+           "//*[. != ''][1]", "/*"],
+    "num": ["2 + 3", "0 div 0", "7", "10 div 4", "-1", "count(//*)", "0"],
+    "str": ["concat('1', '2')", "''", "concat('a', 'b')", "string(//*[1])", "concat(' 4', ' ')", "substring('xyz', 9)", "name(/*)",
+            "concat('', '')", "translate('a', 'a', '')", "normalize-space('  ')", "string(//zz)", "substring-before('a', 'b')",
+            "translate('7', '', '')", "concat('', '3')", "normalize-space(' 5 ')", "substring('a12', 2)",
+            "'12'", "' 7 '", "'0'", "'abc'", "'3.5'", "''", "'-2'"],
+    "bool": ["true()", "false()", "not(//zz)"],
+}
+RECYCLE_USES = [
+    "substring('abcdefghij', {0})", "substring('abcdefghij', {0}, {1})", "floor({0})", "ceiling({0})", "{0} * 2", "{0} + 1", "-({0})",
+    "{0} mod 3", "sum(//zz) + {0}", "concat({0}, '|')", "concat({0}, '|', {1})", "string-length({0})", "contains({0}, '1')",
+    "starts-with({0}, {1})", "not({0})", "boolean({0})", "{0} = 1", "{0} < 5", "{0} = {1}", "{0} != ''", "number({0})",
+    "string({0})", "normalize-space({0})", "translate({0}, '1', 'x')", "substring-before({0}, '1')", "{0} and {1}", "{0} or {1}",
+    "round(2 * {0}) div 2", "substring({0}, 1, 2)", "substring({0}, {1})",
+]
+
+
+def g_recycle_phase(r, nsteps):
+    """list of ('var', name, expr) / ('eval', expr)"""
+    names = ["q1", "q2", "q3", "q4"]
+    out = []
+
+    def source(bias_empty):
+        kind = r.weighted([("ns-empty", 5 if bias_empty else 2), ("ns", 5), ("num", 2), ("str", 2), ("bool", 1)])
+        return r.choice(RECYCLE_SOURCES[kind])
+    for nm in names:
+        out.append(("var", nm, source(True)))
+
+    def operand():
+        w = r.below(4)
+        if w < 2:
+            return "$" + r.choice(names)
+        return source(r.chance(1, 2))
+    for _ in range(nsteps):
+        if r.chance(1, 3):
+            out.append(("var", r.choice(names), source(r.chance(1, 2))))
+        else:
+            u = r.choice(RECYCLE_USES)
+            a, b = operand(), operand()
+            if "{0}" in u and (a.startswith("$") or True):
+                out.append(("eval", u.format("(" + a + ")" if not a.startswith("$") and " " in a and "(" not in a[:1] else a,
+                                             "(" + b + ")" if not b.startswith("$") and " " in b else b)))
+    return out
 
 
 def g_pred(r, depth):
